@@ -3,7 +3,7 @@
 From Coq Require Import List ZArith NArith Bool Permutation Sorted.
 From Coq.Strings Require Import Byte.
 Import ListNotations.
-From SV Require Import Text C16_StableSort C16_Model C16_Lemmas C16_More.
+From SV Require Import Text C16_StableSort C16_Model C16_Lemmas C16_More C16_Place.
 
 (* filter: exactly the elements satisfying all conditions, in input order; the receiver is replaced only with inplace *)
 Theorem C16_filter_spec : forall inplace conds objs, forallb (cond_ok objs) conds = true ->
@@ -361,6 +361,60 @@ Theorem C16_groupby_leaves_permutation : forall ks objs t, m_groupby ks objs = O
 Proof. exact groupby_leaves. Qed.
 Print Assumptions C16_groupby_leaves_permutation.
 
+
+(* ---- round 7: the place a key is looked up, per collection kind ---- *)
+(* the decision table: what the helpers see of an object through key k is the value at place_of_key K k - the metadata entry
+   for FeatureList / BioBasket (attr='meta'), for BioMatchList the instance attribute, else the attribute of the wrapped
+   re.Match, else None; a callable gets the object; the key of a filter condition is len(obj) for 'len', else the metadata entry *)
+Theorem C16_place_table :
+  (forall K k o, keyval k (xview K o) = place_val K (place_of_key K k) o) /\
+  (forall K s o, attr_is_meta K = true -> getv s (xview K o) = place_val K (place_of_cond s) o) /\
+  (forall s, place_of_key CFl (KMeta s) = PlMeta s /\ place_of_key CBb (KMeta s) = PlMeta s /\ place_of_key CMl (KMeta s) = PlAttr s) /\
+  (forall K k, (forall s, k <> KMeta s) -> place_of_key K k = PlCall k) /\
+  (forall s o, place_val CMl (PlAttr s) o =
+     match assoc s (xinst o) with Some v => v | None => match assoc s (xwrap o) with Some v => v | None => PNone end end) /\
+  (forall K s o, place_val K (PlMeta s) o = match assoc s (emeta (xe o)) with Some v => v | None => PNone end) /\
+  place_of_cond k_len = PlLen /\ (forall s, str_eqb s k_len = false -> place_of_cond s = PlMeta s).
+Proof. exact place_table_full. Qed.
+Print Assumptions C16_place_table.
+
+(* whatever sits at the OTHER places (instance attributes of a Feature / BioSeq; a .meta attribute of a BioMatch) changes no
+   answer of groupby, sort or filter *)
+Theorem C16_other_place_irrelevant : forall K objs objs', Forall2 (same_place K) objs objs' ->
+  (forall ks, x_groupby K ks objs = x_groupby K ks objs') /\
+  (forall ks r, x_sort K ks r objs = x_sort K ks r objs') /\
+  (forall conds, x_filter K conds objs = x_filter K conds objs').
+Proof. exact other_place_irrelevant. Qed.
+Print Assumptions C16_other_place_irrelevant.
+
+(* groupby uses EXACTLY the values at the places of its keys: two collections of one kind whose objects agree, position by
+   position, on identity and on those values get the same nested grouping (same keys, same order, same members) *)
+Theorem C16_groupby_reads_only_place : forall K ks objs objs', Forall2 (same_at K (keyfuncs ks)) objs objs' ->
+  vres vtree (x_groupby K ks objs) = vres vtree (x_groupby K ks objs').
+Proof. exact groupby_reads_only_place. Qed.
+Print Assumptions C16_groupby_reads_only_place.
+
+(* ... and so does sort (keys other than the default order, which compares the elements themselves) *)
+Theorem C16_sort_reads_only_place : forall K ks r objs objs', no_default (keyfuncs ks) ->
+  Forall2 (same_at K (keyfuncs ks)) objs objs' ->
+  map eidx (x_sort K ks r objs) = map eidx (x_sort K ks r objs').
+Proof. exact sort_reads_only_place. Qed.
+Print Assumptions C16_sort_reads_only_place.
+
+(* ... and filter: only the values at the places of its conditions' keys (len(obj) for len, else the metadata entry) matter *)
+Theorem C16_filter_reads_only_place : forall K conds objs objs', attr_is_meta K = true ->
+  Forall2 (same_at_c K conds) objs objs' ->
+  vres vidx (x_filter K conds objs) = vres vidx (x_filter K conds objs').
+Proof. exact filter_reads_only_place. Qed.
+Print Assumptions C16_filter_reads_only_place.
+
+(* BioMatchList.groupby(name): the group under v holds exactly the matches whose attribute `name` (instance, else wrapped
+   match, else None) is v, in list order *)
+Theorem C16_matchlist_groupby_attr : forall s objs t v, x_groupby CMl (KsTuple [KMeta s]) objs = Ok t ->
+  glookup [v] t = map (xview CMl) (filter (fun o => pv_eqb (getattr_none s o) v) objs).
+Proof. exact matchlist_groupby_attr. Qed.
+Print Assumptions C16_matchlist_groupby_attr.
+
 (* non-vacuity *)
 Example C16_witness_filter :
   let xs := [Ft 0 [(0, 3)%Z] [(k_type, PStr (bs "CDS"%bs)); (bs "n"%bs, PInt 2)]; Ft 1 [(1, 9)%Z] [(bs "n"%bs, PInt 0)];
@@ -425,3 +479,24 @@ Proof.
           (conj eq_refl (conj eq_refl (conj eq_refl (conj eq_refl (conj eq_refl (conj eq_refl (conj eq_refl (conj eq_refl
           (conj eq_refl (conj (key_le_preorder KNegLen) eq_refl)))))))))))).
 Qed.
+
+(* a Feature whose metadata says rf=2 while an instance attribute says rf=5; a BioMatch with attribute rf=1 (and a .meta saying
+   -1), pos only on the wrapped re.Match, and one whose instance attribute pos hides the wrapped one *)
+Example C16_witness_round7 :
+  let k_rf := bs "rf"%bs in let k_pos := bs "pos"%bs in
+  let f0 := mkX (Ft 0 [(0, 3)%Z] [(k_rf, PInt 2)]) [(k_rf, PInt 5)] [] in
+  let f1 := mkX (Ft 1 [(1, 4)%Z] [(k_rf, PInt 0)]) [(k_rf, PInt 5)] [] in
+  let f0' := mkX (Ft 0 [(0, 3)%Z] [(k_rf, PInt 2)]) [] [] in
+  let f1' := mkX (Ft 1 [(1, 4)%Z] [(k_rf, PInt 0)]) [(k_rf, PInt 7)] [] in
+  let m0 := mkX (Sq 0 [] [(k_rf, PInt (-1))]) [(k_rf, PInt 1); (k_seqid, PStr (bs "q"%bs))] [(k_pos, PInt 3)] in
+  let m1 := mkX (Sq 1 [] []) [(k_rf, PInt 0); (k_seqid, PNone); (k_pos, PInt 9)] [(k_pos, PInt 3)] in
+  xstep_wf (XsGroup CFl [f0; f1] (KsStr k_rf)) = true /\ xstep_wf (XsSort CFl [f0; f1] (KsStr k_rf) false) = true /\
+  xstep_wf (XsGroup CMl [m0; m1] (KsStr (bs "rf pos"%bs))) = true /\
+  xstep_wf (XsFilter CFl [f0; f1] [(bs "rf_eq"%bs, FV (PInt 2))]) = true /\
+  vres vtree (x_groupby CFl (KsStr k_rf) [f0; f1]) = VL [VL [VI 2; VL [VI 0]]; VL [VI 0; VL [VI 1]]] /\
+  map eidx (x_sort CFl (KsStr k_rf) false [f0; f1]) = [1; 0]%nat /\
+  vres vtree (x_groupby CMl (KsStr (bs "rf pos"%bs)) [m0; m1]) = VL [VL [VI 1; VL [VL [VI 3; VL [VI 0]]]]; VL [VI 0; VL [VL [VI 9; VL [VI 1]]]]] /\
+  Forall2 (same_place CFl) [f0; f1] [f0'; f1'] /\ Forall2 (same_at CMl [KMeta k_rf]) [m0; m1] [m0; mkX (Sq 1 [] [(k_rf, PInt 4)]) [(k_rf, PInt 0)] []] /\
+  no_default (keyfuncs (KsStr k_rf)) /\
+  Forall2 (same_at_c CFl [(bs "rf_eq"%bs, FV (PInt 2))]) [f0; f1] [f0'; f1'].
+Proof. exact witness_round7. Qed.
